@@ -180,7 +180,9 @@ func (StepMonitor) OnWrite(x *Ctx, w *Write) {
 		step := steps[ai-1]
 		// "a last canary step that already covers 100% needs no approval": judged on what the step covers (every
 		// replica of the workload), not on how it is spelt
-		if int(ai) == len(steps) && step.Replicas != nil {
+		// (only of the canary strategy: a blue-green release keeps both versions running until its last step is
+		// approved, whatever that step covers)
+		if int(ai) == len(steps) && step.Replicas != nil && after.Spec.Strategy.BlueGreen == nil {
 			if step.Replicas.StrVal == "100%" {
 				return
 			}
